@@ -28,10 +28,17 @@ RULE = ("single fields: every shape HxW <= bound (5x5 thorough, 4x4 quick) x eve
         "fields (event density drawn from {0.2,0.5,0.8}, occasionally all-zero / all-one / identical pairs), value fields on the grid k/2 "
         "(also integer-dtype and mixed integer/float fields with fractional thresholds) "
         "with NaN cells, thresholds on the grid and the four numpy comparison operators; multi-field arrays: 0-2 extra dims on fcst/obs "
-        "(random overlap, broadcast, labels of shared extra dims stored in independently shuffled order), random reduce/preserve spelling, both paddings; fss_2d_binary on bool and 0/1 float fields. A case is "
+        "(random overlap, broadcast, labels of shared extra dims stored in independently shuffled order; spatial labels of obs and/or fcst stored reversed or permuted "
+        "in a third of the cases and in most lone 2-D pairs, each lone 2-D call repeated with a length-1 extra dim), random reduce/preserve spelling, both "
+        "paddings; fss_2d_binary on bool and 0/1 float fields; large neighbourhoods: fields 12..40, 64..128 and 240..300 cells a side with widespread events "
+        "(dry strips, density 0.8-0.97, all-event, identical, shifted blobs; sparse control), windows mostly >= 90% of the side, both paddings, four operators, "
+        "float/int32/int64 storage, through all three entry points, decided by exact int64/Python-integer window counting. A case is "
         "distinct by (function, fields, threshold, operator, window, padding, request) and non-trivial when some field contains an event")
-ASSUMPTIONS = ["event counts are small integers: binary64 evaluates the component means and the final ratio to within 1e-9 of the exact rational"]
-TRUSTED = ["xr.apply_ufunc(vectorize=True) over the non-spatial dims is modelled as a loop over the broadcast (inner-joined) index space"]
+ASSUMPTIONS = ["event counts are integers <= 9e4 and the sums of their squares stay below 2^53: binary64 evaluates the component means and the final ratio to within 1e-9 of the exact rational"]
+TRUSTED = ["xr.apply_ufunc(vectorize=True) over the non-spatial dims is modelled as a loop over the broadcast (inner-joined) index space",
+           "fields larger than 20x20 (padded) / 64x64 (128x128 thorough, unpadded) are not sent through the extracted model (too slow: 35 s for one 256x256 field): "
+           "their oracle is harness code (c16.py::fast_sums, int64 prefix sums + Python integers), cross-checked in every run against direct counting on small "
+           "fields and against the extracted model on the medium ones"]
 
 FINDING = "fss-zero-padding-odd-window"
 OPS = ["gt", "ge", "lt", "le"]
@@ -133,6 +140,50 @@ def py_sums(f, o, th, op, wh, ww, pad, code):
             a, b = win(bf, r, c), win(bo, r, c)
             sf, so, sd = sf + a * a, so + b * b, sd + (a - b) ** 2
     return sf, so, sd
+
+
+def fast_sums(bf, bo, wh, ww, pad, code, want_max=False):
+    """the three sums of py_sums for 0/1 integer fields of any size: the window counts are differences of an int64 prefix-sum table of
+    the zero-extended plane (counts <= H*W < 2^31, squares < 2^63), the three totals are accumulated in Python integers.  Independent of
+    the implementation's table layout, index meshes and clips; cross-checked in every run against py_sums (direct counting) on small
+    fields and against the extracted model on medium ones (large_fields)."""
+    bf, bo = np.asarray(bf, dtype=np.int64), np.asarray(bo, dtype=np.int64)
+    if bf.shape != bo.shape or bf.ndim != 2:
+        return "err:ValueError"
+    H, W = bf.shape
+    if wh > H or ww > W or wh < 1 or ww < 1:
+        return "err:ValueError"
+    hh, hw = (wh // 2, ww // 2) if pad else (0, 0)
+    nr = (H + 1 if code else H + 2 * hh - wh + 1) if pad else H - wh + 1
+    nc = (W + 1 if code else W + 2 * hw - ww + 1) if pad else W - ww + 1
+
+    def counts(b):
+        ext = np.zeros((hh + H + wh, hw + W + ww), dtype=np.int64)      # hh/hw zero cells before the field, enough after it
+        ext[hh:hh + H, hw:hw + W] = b
+        P = np.zeros((ext.shape[0] + 1, ext.shape[1] + 1), dtype=np.int64)
+        P[1:, 1:] = ext.cumsum(0).cumsum(1)
+        # window with top-left corner (r, c) of the extended plane, r < nr, c < nc
+        return P[wh:wh + nr, ww:ww + nc] - P[0:nr, ww:ww + nc] - P[wh:wh + nr, 0:nc] + P[0:nr, 0:nc]
+
+    def total(a):
+        return sum(int(x) for x in (a * a).sum(axis=1))
+    a, b = counts(bf), counts(bo)
+    if want_max:
+        return int(max(a.max(), b.max()))
+    return total(a), total(b), total(a - b)
+
+
+def fss_of_sums(t):
+    if isinstance(t, str):
+        return t
+    sf, so, sd = t
+    return Fraction(0) if sf + so == 0 else 1 - Fraction(sd, sf + so)
+
+
+def events_of(a, th, op):
+    """0/1 event field (NaN compares false); thresholds are dyadic, so float(th) is exact"""
+    with np.errstate(invalid="ignore"):
+        return np_op(op)(np.asarray(a), float(th)).astype(np.int64)
 
 
 def model_single(ctx, f, o, th, op, wh, ww, pad):
@@ -327,6 +378,53 @@ def malformed_single(ctx, S, n):
         ctx.count("malformed:" + kind)
 
 
+def shuffle_spatial(rng, da):
+    for d in ("x", "y"):
+        n = da.sizes[d]
+        if n > 1 and rng.random() < 0.7:
+            idx = list(range(n))[::-1] if rng.random() < 0.5 else rng.sample(range(n), n)
+            da = da.isel({d: idx})
+    return da
+
+
+def spatial_order_differs(fcst, obs):
+    return any(d in fcst.coords and d in obs.coords and fcst.sizes[d] == obs.sizes[d] and fcst[d].values.tolist() != obs[d].values.tolist()
+               for d in ("x", "y") if d in fcst.dims and d in obs.dims)
+
+
+def model_view(fcst, obs):
+    """what the model is given: fss_2d pairs the cells of fcst and obs by coordinate label and runs the windows over the forecast's
+    stored order of the spatial dims (window adjacency is positional), while core.enc_arr hands every dim over in sorted-label order.
+    When both arrays carry the same set of spatial labels, obs is selected at the forecast's labels and both get the positional labels
+    0..n-1; otherwise (a missing dim, different extents: error paths) the arrays are passed on unchanged."""
+    for d in ("x", "y"):
+        if d not in fcst.dims or d not in obs.dims or d not in fcst.coords or d not in obs.coords:
+            return fcst, obs
+        if sorted(fcst[d].values.tolist()) != sorted(obs[d].values.tolist()):
+            return fcst, obs
+    obs = obs.sel({d: fcst[d].values for d in ("x", "y")})
+    pos = {d: np.arange(fcst.sizes[d]) for d in ("x", "y")}
+    return fcst.assign_coords(pos), obs.assign_coords(pos)
+
+
+def lone_vs_stacked(ctx, fn, what, desc, fcst, obs, impl, kw):
+    """a lone 2-D field is scored exactly like the same field inside an array with a length-1 extra dimension (aggregation over one
+    field is the field's own score); needs no model"""
+    if not (fcst.ndim == 2 and obs.ndim == 2 and impl[0] == "ok" and impl[1].ndim == 0):
+        return
+    kw = {k: v for k, v in kw.items() if k not in ("reduce_dims", "preserve_dims")}
+    who = ctx.rng.choice(["both", "both", "fcst", "obs"])
+    f1 = fcst.expand_dims("time") if who in ("both", "fcst") else fcst
+    o1 = obs.expand_dims("time") if who in ("both", "obs") else obs
+    st = core.call_impl(fn, f1, o1, **kw)
+    ctx.count("lone_2d:vs_length1_dim")
+    if spatial_order_differs(fcst, obs):
+        ctx.count("lone_2d:spatial_labels_in_another_order")
+    if st[0] != "ok" or st[1].size != 1 or abs(float(st[1].squeeze()) - float(impl[1])) > 1e-12:
+        ctx.violation(what + ": a lone 2-D field scores differently from the same field with a length-1 extra dimension",
+                      dict(desc, length1_dim_on=who), str(st[1].values.tolist()) if st[0] == "ok" else st[1], float(impl[1]))
+
+
 def gen_multi(ctx, binary=False):
     rng = ctx.rng
     H, W = rng.randint(1, 4), rng.randint(1, 4)
@@ -359,6 +457,12 @@ def gen_multi(ctx, binary=False):
         for d in obs.dims:
             if d not in ("x", "y") and obs.sizes[d] > 1:
                 obs = obs.isel({d: list(range(obs.sizes[d]))[::-1]})
+    # spatial labels stored in another order in obs than in fcst (a grid stored north-to-south against one stored south-to-north, or any
+    # permutation): cells are paired by label, the windows run over the forecast's stored order.  More often for lone 2-D fields.
+    if rng.random() < (0.6 if fcst.ndim == 2 and obs.ndim == 2 else 0.3):
+        obs = shuffle_spatial(rng, obs)
+        if rng.random() < 0.4:
+            fcst = shuffle_spatial(rng, fcst)
     wh, ww = rng.randint(1, H), rng.randint(1, W)
     pad = rng.random() < 0.5
     alld = sorted(set(fcst.dims) | set(obs.dims))
@@ -394,8 +498,11 @@ def multi_cases(ctx, S, n):
         if wh > H or ww > W:
             ctx.count("multi:window_too_big")
         impl = core.call_impl(S.spatial.fss_2d, fcst, obs, **kw)
-        m = ctx.model("c16_fss2d", enc_list([enc_arr(fcst), enc_arr(obs), enc_num(th), enc_str(op), str(wh), str(ww),
+        mf, mo = model_view(fcst, obs)
+        m = ctx.model("c16_fss2d", enc_list([enc_arr(mf), enc_arr(mo), enc_num(th), enc_str(op), str(wh), str(ww),
                                              enc_list([enc_str(s) for s in sp]), enc_bool(pad), enc_dimspec(rd), enc_dimspec(pd)]))
+        if spatial_order_differs(fcst, obs):
+            ctx.count("multi:spatial_labels_in_another_order")
         desc = {"fn": "fss_2d", "fcst": gens.da_repr(fcst), "obs": gens.da_repr(obs), "fcst_dtype": str(fcst.dtype), "obs_dtype": str(obs.dtype),
                 "event_threshold": th, "operator": op, "window_size": [wh, ww],
                 "spatial_dims": list(sp), "zero_padding": pad, "reduce_dims": rd, "preserve_dims": pd}
@@ -404,6 +511,7 @@ def multi_cases(ctx, S, n):
             ctx.sample(desc)
         v = judge_array(ctx, "fss_2d", desc, impl, m[0], m[1], pad, wh, ww)
         ctx.count("multi:" + v)
+        lone_vs_stacked(ctx, S.spatial.fss_2d, "fss_2d", desc, fcst, obs, impl, kw)
         ctx.count("multi:extra_dims=%d" % (len(set(fcst.dims) | set(obs.dims)) - 2))
         if impl[0] == "ok":
             ctx.count("multi:out_ndim=%d" % impl[1].ndim)
@@ -424,7 +532,8 @@ def binary_cases(ctx, S, n):
         if pd is not None:
             kw["preserve_dims"] = pd
         impl = core.call_impl(S.spatial.fss_2d_binary, fb, ob, **kw)
-        m = None if no_model(ctx) else ctx.model("c16_binary", enc_list([enc_arr(fcst), enc_arr(obs), enc_bool(as_bool), enc_bool(check), str(wh), str(ww),
+        mf, mo = model_view(fcst, obs)
+        m = None if no_model(ctx) else ctx.model("c16_binary", enc_list([enc_arr(mf), enc_arr(mo), enc_bool(as_bool), enc_bool(check), str(wh), str(ww),
                                                                        enc_list([enc_str("x"), enc_str("y")]), enc_bool(pad), enc_dimspec(rd), enc_dimspec(pd)]))
         desc = {"fn": "fss_2d_binary", "fcst": gens.da_repr(fcst), "obs": gens.da_repr(obs), "bool_dtype": as_bool, "check_boolean": check,
                 "window_size": [wh, ww], "zero_padding": pad, "reduce_dims": rd, "preserve_dims": pd}
@@ -432,6 +541,7 @@ def binary_cases(ctx, S, n):
         if m is not None:
             v = judge_array(ctx, "fss_2d_binary", desc, impl, m[0], m[1], pad, wh, ww)
             ctx.count("binary:" + v)
+        lone_vs_stacked(ctx, S.spatial.fss_2d_binary, "fss_2d_binary", desc, fb, ob, impl, kw)
         # the binary entry point agrees with thresholding the same 0/1 field at 0.5
         if impl[0] == "ok":
             kw2 = {k: v_ for k, v_ in kw.items() if k != "check_boolean"}
@@ -498,7 +608,8 @@ def multi_relations(ctx, S, n):
             return
         fcst, obs, wh, ww, pad, rd, pd = gen_multi(ctx)
         th, op = Fraction(rng.randint(-2, 2), 2), rng.choice(OPS)
-        fa, oa = xr.broadcast(*xr.align(fcst, obs, join="inner"))
+        # cells are paired by label; along the spatial dims the forecast's stored order is the order the windows run over
+        fa, oa = xr.broadcast(*xr.align(fcst, obs.sel(x=fcst["x"].values, y=fcst["y"].values), join="inner"))
         extra = [d for d in fa.dims if d not in ("x", "y")]
         fa, oa = fa.transpose(*extra, "x", "y"), oa.transpose(*extra, "x", "y")
         kw = dict(event_threshold=float(th), window_size=(wh, ww), zero_padding=pad, threshold_operator=np_op(op))
@@ -510,6 +621,7 @@ def multi_relations(ctx, S, n):
         if impl[0] != "ok":
             ctx.violation("fss_2d raises on a valid input", desc, "values", impl[1])
             continue
+        lone_vs_stacked(ctx, S.spatial.fss_2d, "fss_2d", desc, fcst, obs, impl, dict(kw, spatial_dims=("x", "y")))
         res = impl[1].transpose(*extra)
         for idx in itertools.product(*[range(fa.sizes[d]) for d in extra]):
             sel = dict(zip(extra, idx))
@@ -520,6 +632,195 @@ def multi_relations(ctx, S, n):
                 ctx.violation("fss_2d with all extra dims preserved differs from fss_2d_single_field on the slice", dict(desc, slice=str(lab)),
                               str(one[1]), got)
         ctx.count("multi:per_slice_relation")
+
+
+# ------------------------------------------------------------------------------------------
+# large neighbourhoods: medium .. large fields with widespread events (window counts up to ~9e4, squared counts beyond 2^31)
+# ------------------------------------------------------------------------------------------
+SIZE_CLASSES = {"medium": (12, 40), "mid": (64, 128), "large": (240, 300)}
+DENSE_KINDS = ["strips", "strips", "dense", "dense", "full", "identical", "blob", "sparse"]
+
+
+def dense_masks(nrng, H, W, kind):
+    def strips(m):
+        for _ in range(int(nrng.integers(1, 3))):
+            k = int(nrng.integers(1, min(H, W) // 16 + 2))
+            side = int(nrng.integers(0, 4))
+            if side == 0:
+                m[:k, :] = False
+            elif side == 1:
+                m[-k:, :] = False
+            elif side == 2:
+                m[:, :k] = False
+            else:
+                m[:, -k:] = False
+        return m
+
+    def blob():
+        m = np.zeros((H, W), dtype=bool)
+        r0, r1 = int(nrng.integers(0, H // 8 + 1)), H - int(nrng.integers(0, H // 8 + 1))
+        c0, c1 = int(nrng.integers(0, W // 8 + 1)), W - int(nrng.integers(0, W // 8 + 1))
+        m[r0:r1, c0:c1] = True
+        return m
+    if kind == "strips":
+        return strips(np.ones((H, W), dtype=bool)), strips(np.ones((H, W), dtype=bool))
+    if kind == "dense":
+        p = float(nrng.choice([0.8, 0.9, 0.97]))
+        return nrng.random((H, W)) < p, nrng.random((H, W)) < p
+    if kind == "full":
+        return np.ones((H, W), dtype=bool), nrng.random((H, W)) < 0.9
+    if kind == "identical":
+        f = strips(nrng.random((H, W)) < 0.95)
+        return f, f.copy()
+    if kind == "blob":
+        return blob(), blob()
+    return nrng.random((H, W)) < 0.03, nrng.random((H, W)) < 0.03          # sparse: a control
+
+
+def make_dense_pair(gen, k=0):
+    """the k-th field pair of a generated case, rebuilt from its parameters alone (this is what a replay file stores): values on the
+    half-integer grid around the threshold (ties `value == threshold` included, an event only for >= / <=), a few NaN cells in float
+    fields, or integer storage with a threshold k+1/2"""
+    nrng = np.random.default_rng([int(gen["np_seed"]), k])
+    H, W, op, th = int(gen["H"]), int(gen["W"]), gen["op"], Fraction(gen["th"])
+    mf, mo = dense_masks(nrng, H, W, gen["kind"] if k == 0 else "dense")
+    sgn = 1.0 if op in ("gt", "ge") else -1.0
+    incl = op in ("ge", "le")
+    out = []
+    for m, dt in ((mf, gen["dtypes"][0]), (mo, gen["dtypes"][1])):
+        if "int" in dt:
+            # threshold k+1/2: integers on either side
+            v = np.where(m, float(th) + sgn * (nrng.integers(0, 3, size=m.shape) + 0.5), float(th) - sgn * (nrng.integers(0, 3, size=m.shape) + 0.5))
+            out.append(v.astype(dt))
+        else:
+            v = np.where(m, float(th) + sgn * nrng.integers(0 if incl else 1, 4, size=m.shape) / 2.0,
+                         float(th) - sgn * nrng.integers(1 if incl else 0, 4, size=m.shape) / 2.0)
+            if gen.get("nan"):
+                v = np.where(nrng.random(m.shape) < 0.01, np.nan, v)
+            out.append(v)
+    if gen["kind"] == "identical" and k == 0:
+        out[1] = out[0].copy()
+    return out[0], out[1]
+
+
+def rand_dense_gen(rng, size_class, kind=None, pad=None, wide=False):
+    lo, hi = SIZE_CLASSES[size_class]
+    H, W = rng.randint(lo, hi), rng.randint(lo, hi)
+
+    def win(n):
+        # mostly windows covering most of the field (that is where the counts get large), sometimes the full field or any window
+        r = rng.random()
+        if wide or r < 0.7:
+            return rng.randint(n - n // 10, n)
+        if r < 0.85:
+            return n
+        return rng.randint(1, n)
+    ints = rng.random() < 0.25
+    dts = [rng.choice(["int64", "int32"]) if (ints and rng.random() < 0.7) else "float64" for _ in range(2)]
+    ints = any("int" in d for d in dts)
+    return {"np_seed": rng.getrandbits(48), "size_class": size_class, "H": H, "W": W, "kind": kind or rng.choice(DENSE_KINDS),
+            "op": rng.choice(OPS), "th": str(Fraction(2 * rng.randint(-2, 2) + 1, 2) if ints else Fraction(rng.randint(-4, 4), 2)),
+            "dtypes": dts, "nan": (not ints) and rng.random() < 0.3, "wh": win(H), "ww": win(W),
+            "pad": (rng.random() < 0.5) if pad is None else pad, "fields": rng.choice([0, 1, 1, 2])}
+
+
+def dense_case(ctx, S, gen, sample=False):
+    """one generated large-neighbourhood case: the single-field entry against the sliding-window definition, symmetry, identical fields
+    score exactly 1, and the same fields through fss_2d / fss_2d_binary (lone 2-D field or two stacked fields, aggregated)"""
+    f, o = make_dense_pair(gen)
+    H, W, op, th, wh, ww, pad = int(gen["H"]), int(gen["W"]), gen["op"], Fraction(gen["th"]), int(gen["wh"]), int(gen["ww"]), bool(gen["pad"])
+    bf, bo = events_of(f, th, op), events_of(o, th, op)
+    sums_code, sums_def = fast_sums(bf, bo, wh, ww, pad, True), fast_sums(bf, bo, wh, ww, pad, False)
+    sat, spec = fss_of_sums(sums_code), fss_of_sums(sums_def)
+    maxc = fast_sums(bf, bo, wh, ww, pad, False, want_max=True)
+    kw = dict(event_threshold=float(th), window_size=(wh, ww), zero_padding=pad, threshold_operator=np_op(op))
+    desc = {"fn": "fss_2d_single_field", "generated": gen, "shape": [H, W], "events_fcst_obs": [int(bf.sum()), int(bo.sum())],
+            "largest_window_count": maxc, "event_threshold": th, "operator": op, "window_size": [wh, ww], "zero_padding": pad,
+            "note": "fields are rebuilt from `generated` by harness/props/c16.py::make_dense_pair"}
+    impl = core.call_impl(S.spatial.fss_2d_single_field, f, o, **kw)
+    ctx.case(desc, bool(bf.any() or bo.any()))
+    if sample:
+        ctx.sample(desc)
+    verdict = judge_scalar(ctx, "fss_2d_single_field (large neighbourhood)", desc, impl, sat, spec, pad, wh, ww)
+    ctx.count("dense:" + gen["size_class"] + ":" + verdict)
+    ctx.count("dense:kind=" + gen["kind"])
+    for lim, name in ((2 ** 7, "2^7"), (2 ** 15, "2^15"), (46340, "46340 (square > 2^31)")):
+        if maxc > lim:
+            ctx.count("dense:window_count>" + name)
+    # the int64 counting oracle against the extracted (proved) model where the model is fast enough
+    if not no_model(ctx) and (H * W <= 400 or (not pad and H * W <= (128 * 128 if ctx.tier == "thorough" else 4096))):
+        ms, md = model_single(ctx, f, o, th, op, wh, ww, pad)
+        ctx.count("dense:oracle_vs_model")
+        if (ms, md) != (sat, spec):
+            ctx.tie_fail("oracle: int64 prefix-sum counting differs from the extracted model", desc, [str(sat), str(spec)], [str(ms), str(md)])
+    if impl[0] != "ok":
+        return
+    val = float(impl[1])
+    if not 0.0 <= val <= 1.0:
+        ctx.violation("FSS outside [0,1]", desc, "[0,1]", val)
+    sw = core.call_impl(S.spatial.fss_2d_single_field, o, f, **kw)
+    if sw[0] != "ok" or abs(float(sw[1]) - val) > 1e-12:
+        ctx.violation("FSS is not symmetric in forecast and observation", desc, val, str(sw[1]))
+    for name, a, b in (("fcst", f, bf), ("obs", o, bo)):
+        same = core.call_impl(S.spatial.fss_2d_single_field, a, a.copy(), **kw)
+        want = 1.0 if b.any() else 0.0
+        if same[0] != "ok" or float(same[1]) != want:
+            ctx.violation("identical event fields %s score exactly 1" % ("containing an event must" if want else "without any event must score 0, not"),
+                          dict(desc, identical_pair_from=name), want, str(same[1]))
+    T = int(gen.get("fields", 0))
+    if not T:
+        return
+    # the same fields through the xarray entry points: a lone 2-D field (T == 1, sometimes with a length-1 dim) or T stacked fields
+    pairs = [(f, o)] + [make_dense_pair(gen, k) for k in range(1, T)]
+    tot_code, tot_def = list(sums_code), list(sums_def)
+    for (f2, o2) in pairs[1:]:
+        b1, b2 = events_of(f2, th, op), events_of(o2, th, op)
+        tot_code = [x + y for x, y in zip(tot_code, fast_sums(b1, b2, wh, ww, pad, True))]
+        tot_def = [x + y for x, y in zip(tot_def, fast_sums(b1, b2, wh, ww, pad, False))]
+    asat, aspec = fss_of_sums(tuple(tot_code)), fss_of_sums(tuple(tot_def))
+    lone = T == 1 and int(gen["np_seed"]) % 2 == 0
+    if lone:
+        da_f, da_o = xr.DataArray(f, dims=["y", "x"]), xr.DataArray(o, dims=["y", "x"])
+    else:
+        da_f = xr.DataArray(np.stack([p[0] for p in pairs]), dims=["t", "y", "x"])
+        da_o = xr.DataArray(np.stack([p[1] for p in pairs]), dims=["t", "y", "x"])
+    d2 = dict(desc, fn="fss_2d", stacked_fields=0 if lone else T, spatial_dims=["y", "x"], reduce_dims="all")
+    agg = core.call_impl(S.spatial.fss_2d, da_f, da_o, spatial_dims=("y", "x"), reduce_dims="all", **kw)
+    ctx.case(d2, True)
+    judge_scalar(ctx, "fss_2d (large neighbourhood)", d2, (agg[0], float(agg[1]) if agg[0] == "ok" else agg[1]), asat, aspec, pad, wh, ww)
+    d3 = dict(d2, fn="fss_2d_binary")
+    with np.errstate(invalid="ignore"):
+        ev_f, ev_o = np_op(op)(da_f, float(th)), np_op(op)(da_o, float(th))
+    bin_ = core.call_impl(S.spatial.fss_2d_binary, ev_f, ev_o, window_size=(wh, ww), spatial_dims=("y", "x"), zero_padding=pad, reduce_dims="all")
+    ctx.case(d3, True)
+    judge_scalar(ctx, "fss_2d_binary (large neighbourhood)", d3, (bin_[0], float(bin_[1]) if bin_[0] == "ok" else bin_[1]), asat, aspec, pad, wh, ww)
+    ctx.count("dense:xarray_fields=%d" % (0 if lone else T))
+
+
+def oracle_selfcheck(ctx, n):
+    """the int64 prefix-sum oracle against direct counting (py_sums) on small random fields, both paddings, both position rules"""
+    rng = ctx.rng
+    for _ in range(n):
+        H, W = rng.randint(1, 7), rng.randint(1, 7)
+        f, o = rand_binary(rng, H, W), rand_binary(rng, H, W)
+        wh, ww, pad, code = rng.randint(1, H), rng.randint(1, W), rng.random() < 0.6, rng.random() < 0.5
+        a, b = fast_sums(f, o, wh, ww, pad, code), py_sums(f, o, Fraction(1, 2), "gt", wh, ww, pad, code)
+        ctx.count("dense:oracle_vs_direct_counting")
+        if a != b:
+            ctx.tie_fail("oracle: int64 prefix-sum counting differs from direct counting", {"fcst": f.tolist(), "obs": o.tolist(), "window_size": [wh, ww],
+                                                                                         "zero_padding": pad, "code_positions": code}, str(a), str(b))
+
+
+def large_fields(ctx, S, n_medium, n_mid, n_large):
+    rng = ctx.rng
+    oracle_selfcheck(ctx, 60)
+    # two guaranteed large cases (one per padding mode) whose windows hold more than 46340 events, then random ones
+    todo = [("large", dict(kind="strips", pad=False, wide=True)), ("large", dict(kind="strips", pad=True, wide=True))]
+    todo += [("large", {})] * max(0, n_large - 2) + [("mid", {})] * n_mid + [("medium", {})] * n_medium
+    for i, (cls, kw) in enumerate(todo):
+        if not ctx.time_left():
+            return
+        dense_case(ctx, S, rand_dense_gen(rng, cls, **kw), sample=(i == 0))
 
 
 def run_without_model(ctx):
@@ -534,6 +835,7 @@ def run_without_model(ctx):
     exhaustive_single(ctx, S, 5 if thorough else 4, ctx.n(2, 10))
     thresholds_and_nan(ctx, S, ctx.n(400, 4000))
     malformed_single(ctx, S, ctx.n(30, 200))
+    large_fields(ctx, S, ctx.n(24, 300), ctx.n(4, 30), ctx.n(8, 40))
     multi_relations(ctx, S, ctx.n(150, 2000))
     binary_cases(ctx, S, ctx.n(100, 1500))
     aggregation_cases(ctx, S, ctx.n(60, 600))
@@ -545,6 +847,9 @@ def replay(ctx, rec):
     v = rec.get("violation") or {}
     c = v.get("case") or {}
     fn = c.get("fn")
+    if "generated" in c:
+        dense_case(ctx, S, c["generated"])
+        return
     if fn == "fss_2d_single_field":
         f = np.array([[float(x) for x in r] for r in c["fcst"]], dtype=float).astype(c.get("fcst_dtype", "float64"))
         o = np.array([[float(x) for x in r] for r in c["obs"]], dtype=float).astype(c.get("obs_dtype", "float64"))
@@ -557,6 +862,7 @@ def replay(ctx, rec):
             fcst = fcst.astype(c["fcst_dtype"])
         if "int" in c.get("obs_dtype", ""):
             obs = obs.astype(c["obs_dtype"])
+        mf, mo = model_view(fcst, obs)
         wh, ww = c["window_size"]
         pad, rd, pd = bool(c["zero_padding"]), c.get("reduce_dims"), c.get("preserve_dims")
         kw = dict(window_size=(wh, ww), zero_padding=pad)
@@ -568,13 +874,16 @@ def replay(ctx, rec):
             sp = tuple(c["spatial_dims"])
             th, op = Fraction(c["event_threshold"]), c["operator"]
             impl = core.call_impl(S.spatial.fss_2d, fcst, obs, event_threshold=float(th), spatial_dims=sp, threshold_operator=np_op(op), **kw)
-            m = ctx.model("c16_fss2d", enc_list([enc_arr(fcst), enc_arr(obs), enc_num(th), enc_str(op), str(wh), str(ww),
+            lone_vs_stacked(ctx, S.spatial.fss_2d, "fss_2d", c, fcst, obs, impl,
+                            dict(kw, event_threshold=float(th), spatial_dims=sp, threshold_operator=np_op(op)))
+            m = ctx.model("c16_fss2d", enc_list([enc_arr(mf), enc_arr(mo), enc_num(th), enc_str(op), str(wh), str(ww),
                                                  enc_list([enc_str(s) for s in sp]), enc_bool(pad), enc_dimspec(rd), enc_dimspec(pd)]))
         else:
             as_bool, check = bool(c["bool_dtype"]), bool(c["check_boolean"])
             fb, ob = (fcst.astype(bool), obs.astype(bool)) if as_bool else (fcst, obs)
             impl = core.call_impl(S.spatial.fss_2d_binary, fb, ob, spatial_dims=("x", "y"), check_boolean=check, **kw)
-            m = ctx.model("c16_binary", enc_list([enc_arr(fcst), enc_arr(obs), enc_bool(as_bool), enc_bool(check), str(wh), str(ww),
+            lone_vs_stacked(ctx, S.spatial.fss_2d_binary, "fss_2d_binary", c, fb, ob, impl, dict(kw, spatial_dims=("x", "y"), check_boolean=check))
+            m = ctx.model("c16_binary", enc_list([enc_arr(mf), enc_arr(mo), enc_bool(as_bool), enc_bool(check), str(wh), str(ww),
                                                   enc_list([enc_str("x"), enc_str("y")]), enc_bool(pad), enc_dimspec(rd), enc_dimspec(pd)]))
         ctx.case(c, impl[0] == "ok")
         judge_array(ctx, fn, c, impl, m[0], m[1], pad, wh, ww)
@@ -595,6 +904,7 @@ def run(ctx):
              "sampled above" % ("5x5" if thorough else "4x4", cells))
     thresholds_and_nan(ctx, S, ctx.n(400, 8000))
     malformed_single(ctx, S, ctx.n(40, 400))
+    large_fields(ctx, S, ctx.n(24, 300), ctx.n(4, 30), ctx.n(8, 40))
     multi_cases(ctx, S, ctx.n(400, 10000))
     binary_cases(ctx, S, ctx.n(150, 3000))
     aggregation_cases(ctx, S, ctx.n(60, 1000))
